@@ -18,12 +18,10 @@
     (N = 2^log_n > 1, N < 2^(128·r/8), p ≤ ((2^32−1)·32)/(128·r), r, p > 0) within `usize`
     (log_n < 64, 128·r·N < 2^64, 128·r·p < 2^64), for every (log_n, r, p).
 
-  NOT PROVED (tested by the correspondence only — gen_C10: log2 N 1..10, r 1..8, p 1..4, dkLen 1..130, RFC vectors):
-    `scrypt_block_mix input output = some (Spec.Kdf.blockMix r input)`          for input.length = output.length = 128·r, r > 0
-    `scrypt_ro_mix b v t N = some (Spec.Kdf.roMix r N b, …)`                    with `integerify` = LE integer mod N, N = 2^k ≤ 2^32
-    `salsa20_8 t = some (Spec.Kdf.salsa20_8 t)`                                 (the 32 extracted `run_round!` rows vs Bernstein's doubleround;
-                                                                                 an `rfl` on 16 symbolic words exceeds the time cap)
-    `(ScryptParams.new log_n r p).bind (scrypt P S · dkLen) = Spec.Kdf.scrypt P S (2^log_n) r p dkLen`   (scrypt = MFcrypt)
+  scrypt (`salsa20_8` = Salsa20/8 via the re-extracted row table, `scrypt_block_mix` = BlockMix, `scrypt_ro_mix` = ROMix with
+  `integerify` mod N for N = 2^k, k <= 32, `scrypt` = MFcrypt as an equality of `Option`s incl. every refusal) is PROVED in
+  Props/C10/Scrypt.lean.  Domain limit of the code recorded there: `integerify` reads a u32, so for 33 <= log_n (>= 3 TiB of
+  scratch memory) the code is not RFC 7914; `scrypt_spec` therefore carries `log_n <= 32`.
   The PBKDF2 layer of scrypt IS covered by `pbkdf2_hmac_sha256` below (c = 1, any dkLen).
 -/
 import CxVerif.Proofs.KdfHkdf
